@@ -58,5 +58,35 @@ for c in man["checks"]:
 for n in man.get("not_applicable", []):
     rows.append("| %s | not claimed: %s | | | |" % (n["property_id"], n["reason"]))
 region("STATUS", "\n".join(rows))
+# Appendix C: theorems as built
+import importlib, sys
+sys.path.insert(0, ROOT)
+out = []
+for c in man["checks"]:
+    pid = c["property_id"]
+    try:
+        chk = importlib.import_module("props." + pid).CHECK
+    except Exception:
+        continue
+    mods = chk.lean_modules or [pid]
+    out.append("### %s" % pid)
+    out.append("")
+    out.append("*Claim:* " + c["level_claimed"]["text"])
+    out.append("")
+    out.append("*Streams:* " + "; ".join("`%s` (driver `%s`)" % (st.name, st.driver) for st in chk.streams))
+    out.append("")
+    for m in mods:
+        f = os.path.join(ROOT, "lean", "Obao", "Props", m + ".lean")
+        if not os.path.exists(f):
+            continue
+        txt = open(f).read()
+        for mm in re.finditer(r"(/--(.*?)-/\s*)?(?:@\[[^\]]*\]\s*)?theorem\s+([A-Za-z0-9_'.]+)", txt, re.S):
+            doc = (mm.group(2) or "").strip().replace("\n", " ")
+            doc = re.sub(r"\s+", " ", doc)
+            if len(doc) > 260:
+                doc = doc[:257] + "..."
+            out.append("* `%s.%s` — %s" % (m, mm.group(3), doc or "(see source)"))
+    out.append("")
+region("THEOREMS", "\n".join(out))
 open(p, "w").write(s)
 print("DESIGN.md tables regenerated")
